@@ -129,7 +129,11 @@ def build(events, results, regs):
                 t = g(c["t"])
                 i = int(c["i"])
                 mem = t.members if t is not None and isinstance(t.members, list) else None
-                if mem is not None:
+                if mem is not None and not -len(mem) <= i < len(mem):
+                    # the program indexes a position that does not exist (the DSL must reject this; if it does not,
+                    # the precondition oracle reports it): no member to compare with
+                    node = Node("NTupleAccessor", {"index": None}, [t])
+                elif mem is not None:
                     j = i + len(mem) if i < 0 else i
                     m = mem[j]
                     node = m if (m is not None and m.kind == "lit") else Node("NTupleAccessor", {"index": j}, [t],
@@ -153,7 +157,8 @@ def build(events, results, regs):
             elif op == "reduce":
                 node = Node("Reduce", {}, [g(c["a"]), g(c["init"])], fn=g(c["f"]))
             elif op == "call":
-                node = Node("NadaFunctionCall", {}, [g(r) for r in c["args"]], fn=g(c["f"]))
+                from ..ir import bound_args, fn_param_names
+                node = Node("NadaFunctionCall", {}, [g(r) for r in (bound_args(c, fn_param_names(events).get(c["f"])) or [])], fn=g(c["f"]))
         nodes.append(node)
         ri += 1
     return nodes
